@@ -7,3 +7,26 @@ package signature
 //@   inline
 //@   property C09
 //@   loop 1 invariant parsed-so-far-non-nil: forall j :: 0 <= j && j <= $ri ==> #certs[j] != nil
+//@
+//@ pure xsig() = as(signedRes, "xmlsig.Signature")
+//@ func signature.Create
+//@   names out, err
+//@   property C04
+//@   assigns signedBox, signedTag, signedVer, signedBy, signCount, signedRes, signedVal
+//@   requires tagof(signer) != 0
+//@   ensures one-signing-call-on-the-argument: signCount == old(signCount) + 1 && signedBox == valof(data) && signedTag == tagof(data) && signedBy == valof(signer) && signedVer == msgver
+//@   ensures nothing-on-error: err != nil ==> out == nil
+//@   ensures value-copied: err == nil ==> out != nil && sigOver(signedBy, signedTag, signedBox) == signedRes && out.SignatureValue.Text == xsig().SignatureValue && signedVal == xsig().SignatureValue
+//@   ensures signed-info-copied: err == nil ==> out.SignedInfo.CanonicalizationMethod.Algorithm == xsig().SignedInfo.CanonicalizationMethod.Algorithm &&
+//@             out.SignedInfo.SignatureMethod.Algorithm == xsig().SignedInfo.SignatureMethod.Algorithm && len(out.SignedInfo.Reference) == 1 &&
+//@             out.SignedInfo.Reference[0].URI == xsig().SignedInfo.Reference.URI && out.SignedInfo.Reference[0].DigestValue == xsig().SignedInfo.Reference.DigestValue &&
+//@             out.SignedInfo.Reference[0].DigestMethod.Algorithm == xsig().SignedInfo.Reference.DigestMethod.Algorithm
+//@   ensures certificate-copied: err == nil ==> out.KeyInfo != nil && len(out.KeyInfo.X509Data) == 1 && out.KeyInfo.X509Data[0].X509Certificate == xsig().KeyInfo.X509Data.X509Certificate
+//@   ensures transforms-copied: err == nil ==> out.SignedInfo.Reference[0].Transforms != nil &&
+//@             len(out.SignedInfo.Reference[0].Transforms.Transform) == len(xsig().SignedInfo.Reference.Transforms.Transform) &&
+//@             (forall j :: 0 <= j && j < len(xsig().SignedInfo.Reference.Transforms.Transform) ==>
+//@                out.SignedInfo.Reference[0].Transforms.Transform[j].Algorithm == xsig().SignedInfo.Reference.Transforms.Transform[j].Algorithm)
+//@   canary canary-empty-value: err == nil ==> out.SignatureValue.Text == ""
+//@   loop 1 invariant range: -1 <= $ri && $ri < len(xsig().SignedInfo.Reference.Transforms.Transform)
+//@   loop 1 invariant copied-so-far: len(#transforms) == $ri + 1 &&
+//@             (forall j :: 0 <= j && j <= $ri ==> #transforms[j].Algorithm == xsig().SignedInfo.Reference.Transforms.Transform[j].Algorithm)
